@@ -112,6 +112,15 @@ def adapt_harness(site, text, src, crate_src=None):
             # the tie break is a free function of the module now, not an associated function of the peer table
             text = re.sub(r'\b\w+::simultaneous_dial_tie_breaking\(', m.group(2) + '(', text)
             notes.append(f'associated fn -> free fn {m.group(2)}')
+    if site == 'backoff':
+        # `attempts: usize` wrapped in a private tuple newtype of the module: go through `.0` / the constructor
+        m = re.search(r'\bstruct\s+DialBackoffState\s*\{(.*?)\n\}', plain, re.S)
+        fm = re.search(r'\battempts\s*:\s*(\w+)\s*,', m.group(1)) if m else None
+        if fm and fm.group(1) != 'usize' and re.search(r'\bstruct\s+' + fm.group(1) + r'\s*\(\s*(?:pub(?:\([^)]*\))?\s+)?usize\s*\)\s*;', plain):
+            nt = fm.group(1)
+            text = re.sub(r'(DialBackoffState\s*\{[^{}]*?)\battempts(\s*[,}])', lambda mm: mm.group(1) + f'attempts: {nt}(attempts)' + mm.group(2), text)
+            text = re.sub(r'(?<=\.)attempts\b(?!\s*\()', 'attempts.0', text)
+            notes.append(f'attempts: usize -> {nt}(usize)')
     for pinned, sig in ROLE_FNS.get(site, []):
         if re.search(r'\bfn\s+' + re.escape(pinned) + r'\b', plain):
             continue
